@@ -2,7 +2,7 @@ ENGINES = [
     {"name": "SX", "path": "/verif/symx", "kind_free_text": "concolic value-symbolic execution of irispie's real numeric kernels on numpy object arrays of z3 Real terms; z3 decides each obligation for all values; sat models are replayed in floats",
      "serves_properties": ["C02", "C13", "C17"]},
     {"name": "XH", "path": "/verif/xh", "kind_free_text": "CrossHair (symbolic execution of Python with z3) on harnesses calling the real irispie.dates / index code",
-     "serves_properties": []},
+     "serves_properties": ["C09"]},
 ]
 NOTES = ("Solver-based checking only. Every check regenerates its encoding by executing /repo's current source. "
          "Exit 3 = inconclusive/harness error (never success). See DESIGN.md.")
@@ -18,4 +18,7 @@ CHECKS["C13"] = dict(engine="SX", technique="symbolic execution of the real Seri
 CHECKS["C17"] = dict(engine="SX", technique="lifting Sequential.simulate at its kernel entry onto z3 reals + SMT (QF_UFNRA) check of every source equation on the symbolic output",
     text="Bounded SMT check: the unmodified sequential kernel runs on one symbol per input cell; z3 shows that for all positive reals every equation as written in the source (transform(lhs)=rhs+residual) holds in every simulated period, exogenized points take the implied value, non-exogenized residuals and all other cells are unchanged, under both execution orders where valid.",
     note="Model templates (3 equations, 6x6 LHS transforms, lags<=2), spans<=3, plan list enumerated; reals not floats; LOG/EXP uninterpreted with normalising constructors.")
+CHECKS["C09"] = dict(engine="XH", technique="CrossHair symbolic execution (z3) of the real irispie.dates code on symbolic int serials/offsets/steps, per-condition path exhaustion with reachability twins",
+    text="Bounded symbolic execution: for every period class, CrossHair explores all paths of harnesses calling the real Period/Span code with symbolic integers and confirms arithmetic/order laws (unbounded ints), year/segment and keyword-shift accessors (years +-10000), calendar tiling via to_ymd/to_daily (years 1..9998), the daily ymd round trip on all ordinals, mixed-frequency rejection, and Span enumeration/len/indexing/reversal/offset/mutation/resolve/operators on small symbolic spans.",
+    note="datetime.date and calendar.monthrange replaced by a loop-free integer calendar validated against the real modules on each run; counterexamples replayed with the real datetime; bounds per condition in the evidence samples; hash only on 6x6 windows.")
 NOT_APPLICABLE = {f"C{i:02d}": _PENDING for i in range(1, 21)}
